@@ -96,7 +96,8 @@ impl AckDeadline {
         static PRECISION_MICROS: u64 = 100_000;
 
         let duration_since_epoch = time.duration_since(*EPOCH);
-        let time_in_micros = duration_since_epoch.as_micros() as u64;
+        // Round up to whole microseconds so that the deadline is never before the given time.
+        let time_in_micros = ((duration_since_epoch.as_nanos() + 999) / 1_000) as u64;
         let rounded_in_micros = time_in_micros % PRECISION_MICROS;
         let rounded_time = EPOCH
             .checked_add(Duration::from_micros(time_in_micros + rounded_in_micros))
